@@ -329,6 +329,40 @@ def gen_localname_design(rng):
   return "\n".join(L) + "\n", shape
 
 
+def gen_constuse_design(rng):
+  """a Bits constant (module global / closure variable of construct / attribute of the component) read bit-wise with a SIGNAL
+  index and sign-extended, and a bitstruct constant of a type that no port or wire has, assigned to a Bits wire"""
+  W = rng.choice([2, 4, 8, 16]); W2 = W + rng.choice([1, 4, 8]); iw = (W - 1).bit_length()
+  v = rng.choice([rng.getrandbits(W), (1 << W) - 1, 1 << (W - 1), 1]) & ((1 << W) - 1)
+  how = rng.choice(["global", "closure", "attr"])
+  K = "s.K" if how == "attr" else "K"
+  A, B = rng.choice([(4, 4), (8, 8), (3, 5), (1, 7)]); va, vb = rng.getrandbits(A), rng.getrandbits(B)
+  L = ["from pymtl3 import *", "@bitstruct", "class CUP:", f"  x: mk_bits({A})", f"  y: mk_bits({B})"]
+  if how == "global": L.append(f"K = mk_bits({W})({v})")
+  L += ["class CUTop(Component):", "  def construct(s):",
+        f"    s.i = InPort({iw}); s.a = InPort({W2}); s.o1 = OutPort(1); s.o2 = OutPort({W2}); s.o3 = OutPort({W2}); s.o4 = OutPort({A + B}); s.w = Wire({A + B})"]
+  if how == "closure": L.append(f"    K = mk_bits({W})({v})")
+  if how == "attr": L.append(f"    s.K = mk_bits({W})({v})")
+  L += [f"    d = CUP({va}, {vb})", "    @update", "    def up():"]
+  body = [f"s.o1 @= {K}[s.i]", f"s.o2 @= sext({K}, {W2}) + s.a", f"s.o3 @= sext({K}[s.i], {W2}) ^ s.a", "s.w @= d", "s.o4 @= s.w"]
+  keep = [b for b in body[:3] if rng.random() < 0.7] or body[:1]
+  keep += body[3:] if rng.random() < 0.6 else ["s.w @= 0", "s.o4 @= s.w"]
+  for nm_, dflt in (("o1", "0"), ("o2", "s.a"), ("o3", "s.a")):
+    if not any(b.startswith(f"s.{nm_} ") for b in keep): keep.append(f"s.{nm_} @= {dflt}")
+  L += ["      " + b for b in keep]
+  return "\n".join(L) + "\n", how
+
+
+def constuse_stream(sh, backend, n, mech_fn):
+  for case in range(n):
+    rng = sh.rng("constuse", case)
+    src, how = gen_constuse_design(rng)
+    before = sh.counters.get("rejected_by_translator", 0)
+    directed(sh, backend, f"constuse-{case}", src, "CUTop", mech_fn)
+    if sh.counters.get("rejected_by_translator", 0) > before: sh.count("constant_use_designs_refused")
+    else: sh.count("constant_use_designs_cosimulated"); sh.count("constuse:" + how)
+
+
 def localname_stream(sh, backend, n, mech_fn):
   for case in range(n):
     rng = sh.rng("localname", case)
